@@ -16,7 +16,8 @@ import signal
 import os
 import re
 import time
-from concurrent.futures import ProcessPoolExecutor, ThreadPoolExecutor
+import zlib
+from concurrent.futures import ProcessPoolExecutor, ThreadPoolExecutor, as_completed
 from concurrent.futures.process import BrokenProcessPool
 from fractions import Fraction
 
@@ -163,22 +164,6 @@ def head_of(line):
     return {"page": r["page"], "p": r["p"], "wh": r["wh"]}
 
 
-def load_groups(emit, sim):
-    """completed analyses grouped by (arrangement, LAParams, container) - the group is the set of outcomes of the id()
-    tie-break choices.  Kept as raw JSON lines (the workers parse them): -> {key: (sim, head, [lines])}"""
-    groups = {}
-    with open(emit) as f:
-        for line in f:
-            h = head_of(line)
-            k = R.rec_key(h)
-            g = groups.get(k)
-            if g is None:
-                groups[k] = (sim, h, [line])
-            else:
-                g[2].append(line)
-    return groups
-
-
 def parse_group(g):
     sim, head, lines = g
     rs = [json.loads(ln) for ln in lines]
@@ -220,6 +205,31 @@ def pool_map(fn, jobs, mode, dev):
         with ProcessPoolExecutor(min(16, os.cpu_count() or 4), mp_context=ctx, initializer=_init_worker,
                                  initargs=(mode, dev)) as ex:
             return list(ex.map(fn, jobs))
+    except BrokenProcessPool as e:
+        raise MachineryError("a replay worker process died (%s)" % e)
+
+
+def pool_fold(fn, jobs, mode, dev, fold):
+    """run the jobs on a process pool and hand every result to fold() as soon as it is there - nothing is kept.
+    A worker that dies (killed, out of memory) is a machinery failure, never a hang."""
+    ctx = multiprocessing.get_context("fork")
+    nproc = min(16, os.cpu_count() or 4)
+    jobs = iter(jobs)
+    try:
+        with ProcessPoolExecutor(nproc, mp_context=ctx, initializer=_init_worker, initargs=(mode, dev)) as ex:
+            pending = set()
+            more = True
+            while more or pending:
+                while more and len(pending) < 3 * nproc:          # bounded number of submitted jobs
+                    try:
+                        pending.add(ex.submit(fn, next(jobs)))
+                    except StopIteration:
+                        more = False
+                if not pending:
+                    break
+                done = next(as_completed(pending))
+                pending.discard(done)
+                fold(done.result())
     except BrokenProcessPool as e:
         raise MachineryError("a replay worker process died (%s)" % e)
 
@@ -436,66 +446,143 @@ def replay_pdf_chunk(job):
     return res
 
 
-def _replay_any(job):
-    kind, arg = job
-    return kind, (replay_chunk(arg) if kind == "d" else replay_pdf_chunk(arg))
+VIOL_PER_KEY = 20          # violating cases kept (with their replay data) per key and worker; all are counted
+KEEP_MISMATCH = 3
+
+
+def bucketize(ck, outs):
+    """stream every record TLC printed into hash buckets on disk (nothing is kept in memory): one bucket = all records
+    of some LAParams and a quarter of their arrangements, so that a worker can group the outcomes of an arrangement
+    and build one PDF per LAParams.  Lines are tagged with the index of their family.  -> (paths, family names)"""
+    bdir = os.path.join(ck.tmp, "buckets")
+    os.makedirs(bdir, exist_ok=True)
+    names = [n for n, _ in outs]
+    buf = {}
+    size = 0
+    paths = set()
+
+    def flush():
+        for b, lines in buf.items():
+            pth = os.path.join(bdir, "b%08x" % b)
+            with open(pth, "a") as f:
+                f.writelines(lines)
+            paths.add(pth)
+        buf.clear()
+    for fi, (name, emit) in enumerate(outs):
+        n = 0
+        with open(emit) as f:
+            for line in f:
+                n += 1
+                i = line.find(',"out":')
+                j = line.find(',"p":')
+                if not (line.startswith('{"page":') and 0 < j < i):
+                    raise MachineryError("unexpected record layout in %s: %s" % (emit, line[:120]))
+                b = (zlib.crc32(line[j:i].encode()) & 0xFFFFFF) * 4 + (zlib.crc32(line[:j].encode()) & 3)
+                buf.setdefault(b, []).append("%d\t%s" % (fi, line))
+                size += len(line)
+                if size > (32 << 20):
+                    flush()
+                    size = 0
+        os.remove(emit)
+        if n == 0:
+            raise MachineryError("family %s: TLC printed no completed analysis" % name)
+    flush()
+    return sorted(paths), names
+
+
+def replay_bucket(job):
+    """one bucket file: group the records by arrangement, replay every arrangement (objects and PDF) -> compact result"""
+    path, names, pdf_every, pdf_scales, pdf_text_every = job
+    sim_index = names.index("simulate") if "simulate" in names else -1
+    groups = {}
+    with open(path) as f:
+        for raw in f:
+            fi, line = raw.split("\t", 1)
+            fi = int(fi)
+            i = line.find(',"out":')
+            g = groups.get(line[:i])
+            if g is None:
+                groups[line[:i]] = g = [set(), set()]
+            g[0].add(fi)
+            g[1].add((fi == sim_index, line))
+    os.remove(path)
+    per_family = {}
+    glist = []
+    for key, (fams, lines) in groups.items():
+        exhaustive = [ln for s_, ln in lines if not s_]
+        sim = not exhaustive                                   # an exhaustively explored copy wins
+        use = sorted(set(exhaustive)) if exhaustive else sorted({ln for _, ln in lines})
+        fam = min(f for f in fams if (f == sim_index) == sim)
+        per_family[names[fam]] = per_family.get(names[fam], 0) + 1
+        glist.append((sim, head_of(use[0]), use))
+    groups = None
+    out = {"per_family": per_family, "d": replay_chunk(glist), "p": []}
+    byp = {}
+    for i, g in enumerate(glist):
+        if R.pdf_realisable(g[1]) and (zlib.crc32(g[2][0][:200].encode()) + i) % pdf_every == 0:
+            byp.setdefault(R.pkey(g[1]["p"]), []).append(g)
+    k = 0
+    for lst in byp.values():
+        for o in range(0, len(lst), 150):
+            out["p"].append(replay_pdf_chunk((lst[o:o + 150], pdf_scales, (k % pdf_text_every) == 0)))
+            k += 1
+    # keep the result small: everything is counted, a bounded number of cases is carried along
+    for r in [out["d"]] + out["p"]:
+        cnt = {}
+        kept = []
+        for v in r["viol"]:
+            cnt[v[0]] = cnt.get(v[0], 0) + 1
+            if cnt[v[0]] <= VIOL_PER_KEY:
+                kept.append(v)
+        r["viol"] = kept
+        r["viol_count"] = cnt
+        r["mismatch_count"] = len(r["mismatch"])
+        r["mismatch"] = r["mismatch"][:KEEP_MISMATCH]
+    return out
 
 
 def direction_a(ck, mode, invariants, dev, pdf_every, pdf_scales, pdf_text_every, extra_jobs=()):
     outs = tlc_direction_a(ck, invariants, dev, extra_jobs)
     t0 = time.time()
-    allgroups = {}
-    per_family = {}
-    for name, emit in sorted(outs, key=lambda x: x[0] == "simulate"):      # an exhaustively explored copy wins
-        gs = load_groups(emit, name == "simulate")
-        os.remove(emit)
-        if not gs:
-            raise MachineryError("family %s: TLC printed no completed analysis" % name)
-        per_family[name] = len(gs)
-        for k, g in gs.items():
-            allgroups.setdefault(k, g)
-    ck.extra["arrangements_per_family"] = per_family
-    allgroups = list(allgroups.values())
-    nproc = min(16, os.cpu_count() or 4)
-    chunks = [allgroups[i::nproc * 4] for i in range(nproc * 4)]
-    # PDF jobs: groups by LAParams
-    byp = {}
-    for i, g in enumerate(allgroups):
-        if R.pdf_realisable(g[1]) and i % pdf_every == 0:
-            byp.setdefault(R.pkey(g[1]["p"]), []).append(g)
-    jobs = []
-    for j, lst in enumerate(byp.values()):
-        for o in range(0, len(lst), 150):
-            jobs.append((lst[o:o + 150], pdf_scales, (len(jobs) % pdf_text_every) == 0))
-    both = pool_map(_replay_any, [("d", c) for c in chunks if c] + [("p", j) for j in jobs], mode, dev)
-    res1 = [r for k, r in both if k == "d"]
-    res2 = [r for k, r in both if k == "p"]
+    paths, names = bucketize(ck, sorted(outs, key=lambda x: x[0] == "simulate"))
     tot = {"n": 0, "runs": 0, "dev": 0, "tie": 0, "tie_real": 0, "colpage": 0, "scalecmp": 0, "pred_evals": 0, "sim_tie": 0, "gridties": 0}
+    pdf = {"pages": 0, "docs": 0, "dev": 0, "text": 0, "scalecmp": 0, "gridties": 0}
+    per_family = {}
     mismatches = []
+    nmis = [0]
     perkey = {}
+    reported = {}
 
     def report(key, msg, case):
-        # every violating case counts; at most 20 replay files per key are written
-        perkey[key] = perkey.get(key, 0) + 1
-        if perkey[key] <= 20 or ck.is_known(key):
+        # every violating case counts (perkey); at most VIOL_PER_KEY replay files per key are written
+        reported[key] = reported.get(key, 0) + 1
+        if reported[key] <= VIOL_PER_KEY or ck.is_known(key):
             ck.violation(key, msg, case)
-    for r in res1:
+
+    def fold(out):
+        for k, v in out["per_family"].items():
+            per_family[k] = per_family.get(k, 0) + v
+        r = out["d"]
         for k in tot:
             tot[k] += r[k]
-        mismatches += r["mismatch"]
-        for key, msg, case in r["viol"]:
-            report(key, msg, case)
         for h in r["nontrivial"]:
             ck.case(0, ("A", h))
         for s in r["samples"]:
             ck.sample(s, limit=6)
-    pdf = {"pages": 0, "docs": 0, "dev": 0, "text": 0, "scalecmp": 0, "gridties": 0}
-    for r in res2:
-        for k in pdf:
-            pdf[k] += r[k]
-        mismatches += r["mismatch"]
-        for key, msg, case in r["viol"]:
-            report(key, msg, case)
+        for r in [out["d"]] + out["p"]:
+            nmis[0] += r["mismatch_count"]
+            if len(mismatches) < KEEP_MISMATCH:
+                mismatches.extend(r["mismatch"])
+            for key, n in r["viol_count"].items():
+                perkey[key] = perkey.get(key, 0) + n
+            for key, msg, case in r["viol"]:
+                report(key, msg, case)
+        for r in out["p"]:
+            for k in pdf:
+                pdf[k] += r[k]
+    pool_fold(replay_bucket, ((p, names, pdf_every, pdf_scales, pdf_text_every) for p in paths), mode, dev, fold)
+    ck.extra["arrangements_per_family"] = per_family
+    ck.extra["replay_buckets"] = len(paths)
     if perkey:
         ck.extra["violating_cases_per_key"] = perkey
     ck.evaluations += tot["runs"] + pdf["pages"]
@@ -510,20 +597,20 @@ def direction_a(ck, mode, invariants, dev, pdf_every, pdf_scales, pdf_text_every
     ck.extra["tiebreak_dependence_realised_with_reversed_ids"] = tot["tie_real"]
     ck.extra["column_pages"] = tot["colpage"]
     ck.extra["simulated_runs_on_another_tiebreak_path"] = tot["sim_tie"]
-    ck.extra["runs_differing_only_in_the_order_of_equal_top_lines"] = tot["gridties"]
+    ck.extra["runs_differing_only_in_the_order_of_equal_top_lines"] = tot["gridties"] + pdf["gridties"]
     ck.extra["scale_comparisons"] = tot["scalecmp"] + pdf["scalecmp"]
-    ck.extra["model_code_drift"] = len(mismatches)
+    ck.extra["model_code_drift"] = nmis[0]
     ck.extra["replay_wall_s"] = round(time.time() - t0, 1)
-    if mismatches:
+    if nmis[0]:
         ck.note("%d realised arrangements where the real tree differs from every outcome of the specification while the "
                 "property's own predicates hold on the real tree (spec/code drift), first: %s"
-                % (len(mismatches), json.dumps(mismatches[0])[:700]))
+                % (nmis[0], json.dumps(mismatches[0])[:700]))
     if tot["tie"]:
         ck.note("TieBreakIrrelevant is refuted by TLC: %d arrangements have more than one outcome depending on the id() "
                 "tie-break of group_textboxes; %d of them change their box order on the real code when id() order is "
                 "reversed (allocation dependence - a C12 matter, the real result is always one of the model's outcomes)"
                 % (tot["tie"], tot["tie_real"]))
-    return len(allgroups)
+    return tot["n"]
 
 
 # ------------------------------------------------------------------------------------------------ direction B
@@ -686,8 +773,10 @@ def trace_jobs(ck, traces, dev, mode):
                 tf = os.path.join(ck.tmp, "lay_traces_%d_%d.json" % (bi, n))
                 with open(tf, "w") as f:
                     json.dump(todo, f)
+                # -difftrace: a rejection prints only the variables that changed from state to state (the full error
+                # trace of a page of thousands of glyphs is hundreds of megabytes)
                 res = run_tlc(TRACE_SPEC, cfg, workers=1, env={"TRACE_FILE": tf, "JAVA_TOOL_OPTIONS": "-Xss512m"},
-                              timeout=3600, heap="3g")
+                              timeout=3600, heap="3g", extra=["-difftrace"])
                 os.remove(tf)
                 results.append(res)
                 if res.ok:
@@ -695,7 +784,12 @@ def trace_jobs(ck, traces, dev, mode):
                     break
                 if not res.error_trace:
                     raise MachineryError("trace validation failed without a trace: " + res.error_text[:2000])
-                st = res.error_trace[-1][1]
+                st = {}
+                for _, changed in res.error_trace:
+                    st.update(changed)
+                res.error_trace = res.error_trace[-1:]
+                res.stdout = res.stdout[-4000:]
+                res.error_text = res.error_text[:4000]
                 ti = int(st["t"])
                 tr = todo[ti - 1]
                 acc += ti - 1
